@@ -212,30 +212,29 @@ CHECKS = {
     ),
     'C13': dict(
         ref='5.13',
-        text='Theorems in coq/Properties/C13.v (partial): parse.render.parse = parse for single-line fields, whitespace lists '
-             'and single copyright statements for EVERY value, and for multi-line copyright fields whose lines each hold a '
-             'word; render.parse.render.parse = render.parse for formatted text on policy-conformant values; decode.encode = '
-             'identity on extra data in decoded normal form (to_dict/from_dict); an extra field rendered raw as '
-             '"Name: first line / continuation lines" is read back by the line-tracking parser as exactly that text '
-             '(corollary of the C06 grammar theorem: no indentation gained per cycle - the pinned-tree defect F13); no '
-             'encoded formatted value contains an empty line or a line boundary; a rendering whose paragraph renderings hold no '
-             'empty line splits back into exactly those renderings (same number of paragraphs); line lists whose first line holds a word are stable; a license short name and text in decoded normal form '
-             'render to a value that parses back to exactly them; rebuilding a paragraph from its own dictionary form reproduces '
-             'that dictionary form whenever its field values are stable in the sense above (from_dict/to_dict theorem over '
-             'any number of fields); and the document theorem (C13_render_parse_render): the rendering of an object whose paragraphs are header/files/license '
-             'and whose dictionary values are renderable (trimmed non-empty first line, indented non-blank continuation lines) '
-             'and stable parses back - through the C06 grammar theorem - to an object with the same paragraph types and the '
-             'same dictionary forms, and rendering that object gives the same text again (render.parse.render = render); a '
-             'paragraph with a value to render is never rendered as an empty one. The hypothesis of the document theorem is a '
-             'COMPUTABLE test (spec_goodb, proved sound), and C13_text_render_fixpoint states the whole property for every '
-             'text on which the test answers true; the extracted model evaluates the test on every generated DEP-5 document '
-             'on every run and the evidence records on how many it holds (all of them so far), so each generated document '
-             'is covered by the proof, not only by execution. NOT proved: that the test answers true on EVERY document of '
-             'the DEP-5 grammar (a universal statement about the grammar: per-class renderability of converted values); decided by '
-             'co-execution of the complete model (rendering included) with copyright.py on generated DEP-5 documents and '
-             'on their renderings (second cycle), and by the executable statement on every generated document.',
+        text='Theorems in coq/Properties/C13.v: THE GRAMMAR THEOREM (C13_dep5_grammar) - for EVERY document of the DEP-5 grammar '
+             '(Proofs/GrammarSpec.v dep5_doc: header / Files / License paragraphs of well-formed fields under pairwise different '
+             'names, each typed field holding a value of its class - one line for single-line fields, any continuation lines for line '
+             'lists, white-space lists and copyright statements, for formatted text and license texts the blank-line marker, ordinary '
+             'and verbatim lines without trailing blanks and not ending in a marker - plus any extra fields with continuation lines) '
+             'the object built from its text renders to a text that parses back to an object with the same paragraph types and the '
+             'same dictionary forms, and that renders to the same text again (render.parse.render = render), with as many paragraphs. '
+             'It rests on: per class, the rendered value of a grammar value is renderable (trimmed non-empty first line, indented '
+             'non-blank continuation lines without trailing blanks) and stable (C13_class_values, Proofs/ClassFacts.v); rendered names '
+             'parse back to the keys and select the same paragraph type; the document theorem for objects meeting spec_good, whose '
+             'hypothesis is also a computable test proved sound (spec_goodb) that the extracted model evaluates on every generated '
+             'document on every run (true on all of them). Rebuilding a paragraph of the grammar from its own dictionary form '
+             'reproduces that dictionary form when the continuation lines of its extra fields are indented with a space '
+             '(C13_grammar_from_dict; general from_dict/to_dict theorem over any number of fields). RECORDED FINDING F24: with a '
+             'TAB-indented continuation line in an extra field from_dict(to_dict()) does not reproduce to_dict() (the check prints '
+             'KNOWN-FINDING for exactly these inputs). Also proved: parse.render.parse = parse for every field class under stated '
+             'value conditions; an extra field re-parses to the text it was rendered from (defect F13 of the pinned tree excluded); no '
+             'encoded formatted value contains an empty line; renderings without empty lines split back into the same paragraphs; a '
+             'paragraph with a value is never rendered as an empty one. Tie to the code: co-execution of the complete model '
+             '(rendering included) with copyright.py on generated DEP-5 documents and on their renderings (second cycle), '
+             'and the executable statement on every generated document.',
         note=TRUST,
-        technique='Rocq proof (partial) over a Gallina model + differential co-execution against the Python code',
+        technique='Rocq proof (induction over the document grammar, per-class lemmas) over a Gallina model + differential co-execution against the Python code',
     ),
     'C14': dict(
         ref='5.14',
